@@ -203,7 +203,7 @@ def _unit(draw, gv, T, profiles=False, allow_fuel=True):
         for which, key, pool in (("start", "SRT", [0.5, 0.75, 1.0, 1.0]), ("shutdown", "SDT", [0.25, 0.5, 0.75, 1.0])):
             if not draw(st.booleans()):
                 continue
-            n = draw(st.integers(1, 2))
+            n = draw(st.sampled_from([1, 1, 2, 2, 3]))
             vals = sorted(draw(st.lists(st.sampled_from(pool), min_size=n, max_size=n)))
             band = draw(st.sampled_from([0.0, 0.0, 0.0, 0.25]))
             cap_ = min(meta.get("max_series") or [maxq])
